@@ -363,7 +363,10 @@ def evalExpr (cb : Callbacks) (te : TypeEnv) (env : Env) : Expr → M Value
   | .cast e ty => do
     let v ← evalExpr cb te env e
     liftR (castTo te ty v)
-  | .call schema name args => do
+  | .call schema name args =>
+    -- COALESCE "only evaluates the arguments that are needed" (documentation 9.18.2): not a function call
+    if (schema.isEmpty || schema == "pg_catalog") && name == "coalesce" then evalCoalesce cb te env args
+    else do
     let vs ← evalExprs cb te env args
     match (if schema.isEmpty || schema == "public" || schema == "pg_catalog" then evalPureFn name vs else none) with
     | some r => liftR r
@@ -426,6 +429,13 @@ def evalExprs (cb : Callbacks) (te : TypeEnv) (env : Env) : List Expr → M (Lis
     let v ← evalExpr cb te env e
     let vs ← evalExprs cb te env es
     pure (v :: vs)
+
+/-- `COALESCE(e₁, …)`: the first non-NULL value; the arguments to its right are not evaluated -/
+def evalCoalesce (cb : Callbacks) (te : TypeEnv) (env : Env) : List Expr → M Value
+  | [] => pure .null
+  | e :: es => do
+    let v ← evalExpr cb te env e
+    if v.isNull then evalCoalesce cb te env es else pure v
 
 def evalOpt (cb : Callbacks) (te : TypeEnv) (env : Env) : Option Expr → M (Option Value)
   | none => pure none
